@@ -1,6 +1,6 @@
 //! dbdefaults: the "written and read back unchanged" clause of C16, on the real crates, exhaustively.
 //!
-//!   dbdefaults-run OBS ORACLE STATS [--class NAME]
+//!   dbdefaults-run OBS ORACLE STATS [--class NAME] [--dump]
 //!
 //! For every database class: one instance carrying every default of the class chain (nearest class
 //! wins, i.e. `find_default_property`) whose name resolves through `find_property_descriptors` to a
@@ -13,7 +13,11 @@
 //! OBS: one line per class `<class> props=<n> skipped=<m> bin=<ok|FAIL> xml=<ok|FAIL>`.
 //! ORACLE: `<class> C16 <format> <kind> <property>: <detail>` (format bin|xml).
 use super::{coq_value, fail, sorted_classes, STRICT};
-use rbx_dom_weak::{types::Variant, InstanceBuilder, WeakDom};
+use rbx_dom_weak::{
+    types::{Variant, VariantType},
+    InstanceBuilder, WeakDom,
+};
+use rbx_reflection::{DataType, PropertyKind, PropertySerialization};
 use std::collections::BTreeMap;
 use std::io::Write;
 use std::panic::{catch_unwind, AssertUnwindSafe};
@@ -132,6 +136,115 @@ fn diff(wrote: &BTreeMap<String, Variant>, read: &BTreeMap<String, Variant>) -> 
     out
 }
 
+/// a plain value of the given type, for the name-closure probe (None: the probe skips the property)
+fn sample_value(t: VariantType) -> Option<Variant> {
+    use rbx_dom_weak::types::*;
+    let v3 = Vector3::new(1.0, 2.0, 3.0);
+    Some(match t {
+        VariantType::Axes => Variant::Axes(Axes::from_bits(1)?),
+        VariantType::BinaryString => Variant::BinaryString(BinaryString::from(vec![1u8, 2, 3])),
+        VariantType::Bool => Variant::Bool(true),
+        VariantType::BrickColor => Variant::BrickColor(BrickColor::from_number(194)?),
+        VariantType::CFrame => Variant::CFrame(CFrame::new(v3, Matrix3::identity())),
+        VariantType::Color3 => Variant::Color3(Color3::new(0.0, 1.0, 0.0)),
+        VariantType::Color3uint8 => Variant::Color3uint8(Color3uint8::new(1, 2, 3)),
+        VariantType::ColorSequence => Variant::ColorSequence(ColorSequence {
+            keypoints: vec![ColorSequenceKeypoint::new(0.0, Color3::new(0.0, 0.0, 0.0)), ColorSequenceKeypoint::new(1.0, Color3::new(1.0, 1.0, 1.0))],
+        }),
+        VariantType::ContentId => Variant::ContentId(ContentId::from("rbxassetid://1")),
+        VariantType::Enum => Variant::Enum(Enum::from_u32(1)),
+        VariantType::Faces => Variant::Faces(Faces::from_bits(1)?),
+        VariantType::Float32 => Variant::Float32(1.5),
+        VariantType::Float64 => Variant::Float64(1.5),
+        VariantType::Int32 => Variant::Int32(7),
+        VariantType::Int64 => Variant::Int64(7),
+        VariantType::NumberRange => Variant::NumberRange(NumberRange::new(1.0, 2.0)),
+        VariantType::NumberSequence => Variant::NumberSequence(NumberSequence {
+            keypoints: vec![NumberSequenceKeypoint::new(0.0, 1.0, 0.0), NumberSequenceKeypoint::new(1.0, 2.0, 0.0)],
+        }),
+        VariantType::PhysicalProperties => Variant::PhysicalProperties(PhysicalProperties::Default),
+        VariantType::Ray => Variant::Ray(Ray::new(v3, v3)),
+        VariantType::Rect => Variant::Rect(Rect::new(Vector2::new(1.0, 2.0), Vector2::new(3.0, 4.0))),
+        VariantType::Ref => Variant::Ref(Ref::none()),
+        VariantType::SharedString => Variant::SharedString(SharedString::new(vec![1u8, 2, 3])),
+        VariantType::String => Variant::String("abc".to_string()),
+        VariantType::UDim => Variant::UDim(UDim::new(1.0, 2)),
+        VariantType::UDim2 => Variant::UDim2(UDim2::new(UDim::new(1.0, 2), UDim::new(3.0, 4))),
+        VariantType::Vector2 => Variant::Vector2(Vector2::new(1.0, 2.0)),
+        VariantType::Vector3 => Variant::Vector3(v3),
+        VariantType::Vector3int16 => Variant::Vector3int16(Vector3int16::new(1, 2, 3)),
+        VariantType::OptionalCFrame => Variant::OptionalCFrame(Some(CFrame::new(v3, Matrix3::identity()))),
+        VariantType::Tags => Variant::Tags(Tags::new()),
+        VariantType::Attributes => Variant::Attributes(Attributes::new()),
+        VariantType::Font => Variant::Font(Font::default()),
+        VariantType::UniqueId => Variant::UniqueId(UniqueId::new(1, 2, 3)),
+        VariantType::MaterialColors => Variant::MaterialColors(MaterialColors::new()),
+        VariantType::SecurityCapabilities => Variant::SecurityCapabilities(SecurityCapabilities::from_bits(1)),
+        VariantType::Content => Variant::Content(Content::from_uri("rbxassetid://1")),
+        _ => return None,
+    })
+}
+
+/// Name closure (the implementation side of `DbCheck.db_names_roundtrip`): every canonical property that
+/// serializes and does not migrate, written alone on an instance of its declaring class with a plain value of
+/// its declared type, must come back under its own name.  Returns (probed, skipped).
+fn names_probe(orc: &mut impl Write, only: &Option<String>) -> (u64, u64) {
+    let db = rbx_reflection_database::get();
+    let (mut probed, mut skipped) = (0u64, 0u64);
+    for c in sorted_classes(db) {
+        if let Some(o) = only {
+            if o != c.name.as_ref() {
+                continue;
+            }
+        }
+        let class = c.name.as_ref();
+        let mut props: Vec<_> = c.properties.values().collect();
+        props.sort_by(|a, b| a.name.cmp(&b.name));
+        for p in props {
+            let ser = match &p.kind {
+                PropertyKind::Canonical { serialization } => serialization,
+                _ => continue,
+            };
+            if p.name == "Name" {
+                continue; // both codecs store Name as the instance name, not as a property
+            }
+            if matches!(ser, PropertySerialization::DoesNotSerialize | PropertySerialization::Migrate(_)) {
+                continue;
+            }
+            let ty = match &p.data_type {
+                DataType::Value(t) => *t,
+                DataType::Enum(_) => VariantType::Enum,
+                _ => continue,
+            };
+            let Some(value) = sample_value(ty) else {
+                skipped += 1;
+                continue;
+            };
+            probed += 1;
+            let mut one = BTreeMap::new();
+            one.insert(p.name.to_string(), value);
+            for format in ["bin", "xml"] {
+                match roundtrip(format, class, &one) {
+                    Err((stage, text)) => writeln!(orc, "{class} C16 {format} name-probe-{stage} {}: {}", p.name, short(&text)).unwrap(),
+                    Ok(read) => {
+                        if !read.contains_key(p.name.as_ref()) {
+                            let got: Vec<String> = read.keys().cloned().collect();
+                            writeln!(
+                                orc,
+                                "{class} C16 {format} name-changed {}: written alone, read back as [{}] (SerializesAs target does not lead back to the property)",
+                                p.name,
+                                got.join(", ")
+                            )
+                            .unwrap();
+                        }
+                    }
+                }
+            }
+        }
+    }
+    (probed, skipped)
+}
+
 pub fn cli(args: &[String]) -> bool {
     let cmd = args.get(1).map(|s| s.as_str()).unwrap_or("");
     if cmd != "dbdefaults-run" {
@@ -142,6 +255,7 @@ pub fn cli(args: &[String]) -> bool {
     }
     STRICT.store(false, std::sync::atomic::Ordering::Relaxed);
     let only = crate::util::arg_val(args, "--class");
+    let dump = crate::util::has_flag(args, "--dump");
     let db = rbx_reflection_database::get();
     let mut obs = std::io::BufWriter::new(std::fs::File::create(&args[2]).unwrap());
     let mut orc = std::io::BufWriter::new(std::fs::File::create(&args[3]).unwrap());
@@ -165,6 +279,19 @@ pub fn cli(args: &[String]) -> bool {
         let mut status = Vec::new();
         for format in ["bin", "xml"] {
             let whole = roundtrip(format, class, &props);
+            if dump {
+                match &whole {
+                    Ok(read) => {
+                        for (k, v) in &props {
+                            println!("{class} {format} wrote {k} = {}", short(&coq_value(v)));
+                        }
+                        for (k, v) in read {
+                            println!("{class} {format} read  {k} = {}", short(&coq_value(v)));
+                        }
+                    }
+                    Err((stage, text)) => println!("{class} {format} {stage}: {text}"),
+                }
+            }
             let clean = match &whole {
                 Ok(read) => diff(&props, read).is_empty(),
                 Err(_) => false,
@@ -208,12 +335,13 @@ pub fn cli(args: &[String]) -> bool {
         }
         writeln!(obs, "{class} props={} skipped={} bin={} xml={}", props.len(), all.len() - props.len(), status[0], status[1]).unwrap();
     }
+    let (nprobed, nprobe_skipped) = names_probe(&mut orc, &only);
     let types: Vec<String> = by_type.iter().map(|(k, v)| format!("\"{}\": {}", k, v)).collect();
     let mut st = std::fs::File::create(&args[4]).unwrap();
     writeln!(
         st,
-        "{{\"classes\": {}, \"default_properties_written\": {}, \"defaults_not_serializable_skipped\": {}, \"classes_not_unchanged\": {}, \"by_type\": {{{}}}}}",
-        nclasses, nprops, nskipped, nfail_classes, types.join(", ")
+        "{{\"classes\": {}, \"default_properties_written\": {}, \"defaults_not_serializable_skipped\": {}, \"classes_not_unchanged\": {}, \"name_probe_properties\": {}, \"name_probe_skipped_no_sample_value\": {}, \"by_type\": {{{}}}}}",
+        nclasses, nprops, nskipped, nfail_classes, nprobed, nprobe_skipped, types.join(", ")
     )
     .unwrap();
     true
